@@ -18,6 +18,8 @@ import numpy as np
 
 import finam as fm
 
+import _guard
+
 logging.disable(logging.CRITICAL)
 T0 = datetime(2000, 1, 1)
 DAY = timedelta(days=1)
@@ -70,7 +72,8 @@ def main():
 
             cons.update = upd
             try:
-                comp.run(start_time=T0, end_time=T0 + (12 if not isinstance(days, str) else 100) * DAY)
+                with _guard.limit(120.0):
+                    comp.run(start_time=T0, end_time=T0 + (12 if not isinstance(days, str) else 100) * DAY)
             except Exception as e:  # noqa
                 viol.append(f"{kind}(step={days}{'d' if not isinstance(days, str) else ''}): run failed: {type(e).__name__}: {str(e)[:100]}")
                 continue
